@@ -587,3 +587,160 @@ Section Top.
     repeat split; try assumption. cbn. eapply tok_bound; eauto.
   Qed.
 End Top.
+
+
+(* ---- every shifted token is a token the scanner returned at its position ------------- *)
+Section Tokens.
+  Variable g : grammar.
+  Variable tb : table.
+  Variable skipws : N -> option N.
+  Variable next_token : nat -> N -> tokres.
+  Variable stop_id : N.
+  Variable consume_input : bool.
+  Variable strategy : lrstate -> strat_res.
+
+  Notation step := (lr_step g tb skipws next_token stop_id consume_input false).
+  Notation run rc := (rcv_run g tb skipws next_token stop_id consume_input rc strategy).
+  Notation errst := (err_state skipws next_token).
+
+  Definition scanned (x : N * N * N * (N * N)) : Prop :=
+    match x with (y, s, e, _) => exists st, next_token st s = TTok y (e - s) end.
+
+  Definition ahead_scanned (p : N) (a : option (N * N)) : Prop :=
+    match a with Some (y, len) => exists st, next_token st p = TTok y len | None => True end.
+
+  Definition tok_inv (s : lrstate) : Prop :=
+    All scanned (l_trace s) /\ ahead_scanned (hpos s) (l_ahead s).
+
+  (* a strategy that leaves a token ahead took it from the scanner *)
+  Definition strategy_scans : Prop :=
+    forall se p y len, strategy se = SResume p (Some (y, len)) -> exists st, next_token st p = TTok y len.
+
+  Definition out_tok (o : outcome) : Prop :=
+    match o with
+    | Continue s' => tok_inv s'
+    | Done (LROk _ _ _ tr) => All scanned tr
+    | Done _ => True
+    end.
+
+  Lemma do_reduce_tok tr stk pos1 lay1 ah p pr :
+    All scanned tr -> ahead_scanned pos1 ah -> out_tok (do_reduce tb tr stk pos1 lay1 ah p pr).
+  Proof.
+    intros Ht Ha. unfold do_reduce.
+    destruct (negb (Nat.eqb (length (firstn (length (rhs pr)) stk)) (length (rhs pr)))); [exact I|].
+    destruct (skipn (length (rhs pr)) stk) as [|r0 rest]; [exact I|].
+    destruct (goto tb (e_state r0) (lhs pr)) as [s'|]; [|exact I].
+    destruct (match rev (firstn (length (rhs pr)) stk) with [] => _ | deepest :: _ => _ end) as [startp lay].
+    cbn [out_tok]. unfold tok_inv, hpos. cbn [l_stack l_ahead l_trace e_pos]. auto.
+  Qed.
+
+  Lemma do_action_tok tr top below lay1 scan fb acts :
+    All scanned tr -> ahead_scanned (e_pos top) (ahead_of scan) ->
+    out_tok (do_action g tb tr (top :: below) lay1 scan fb acts).
+  Proof.
+    intros Ht Ha. unfold do_action.
+    destruct acts as [|act more]; [exact I|].
+    destruct act as [s'|p0|].
+    - destruct scan as [|y len|]; try exact I. destruct fb; [exact I|].
+      cbn [out_tok]. unfold tok_inv, hpos. cbn [l_stack l_ahead l_trace ahead_scanned]. split; [|exact I].
+      apply All_app. split; [exact Ht|]. cbn [All scanned]. split; [|exact I].
+      cbn [ahead_of ahead_scanned] in Ha. destruct Ha as (st & Hst). exists st.
+      replace (e_pos top + len - e_pos top) with len by lia. exact Hst.
+    - destruct (select_prod g p0 more) as [[p pr]|]; [|exact I].
+      apply do_reduce_tok; [exact Ht|]. destruct scan; cbn [ahead_of] in *; auto.
+    - destruct (nth_error (rev (top :: below)) 1); [exact Ht|exact I].
+  Qed.
+
+  Lemma step_tok s :
+    tok_inv s ->
+    out_tok (step s) /\ (forall se, errst s = Some se -> tok_inv se).
+  Proof.
+    intros [Ht Ha]. unfold lr_step, err_state, hpos in *.
+    destruct (l_stack s) as [|top0 below] eqn:Hstk; [split; [exact I|discriminate]|].
+    destruct (lookahead skipws next_token false s top0) as [[[top lay1] scan]|] eqn:Hla;
+      [|split; [exact I|discriminate]].
+    assert (Hscan : ahead_scanned (e_pos top) (ahead_of scan)).
+    { unfold lookahead in Hla. destruct (l_ahead s) as [[y len]|].
+      - inversion Hla; subst. exact Ha.
+      - destruct (skipws (e_pos top0)) as [p1|]; [|discriminate]. inversion Hla; subst.
+        cbn [set_pos e_pos]. destruct (next_token (e_state top0) p1) eqn:Hn; cbn; auto. eexists; eauto. }
+    split.
+    - destruct scan as [|y len|]; [| |exact I].
+      + destruct consume_input; apply do_action_tok; assumption.
+      + destruct (cell tb (e_state top) y); [destruct consume_input|]; apply do_action_tok; assumption.
+    - intros se E; inversion E; subst. unfold tok_inv, hpos. cbn [l_stack l_ahead l_trace]. auto.
+  Qed.
+
+  Lemma run_tokens (Hsc : strategy_scans) rc fuel : forall s errs t rp lay tr errs',
+    tok_inv s -> run rc fuel s errs = RvOk t rp lay tr errs' -> All scanned tr.
+  Proof.
+    induction fuel as [|f IH]; intros s errs t rp lay tr errs' Hinv Hrun; cbn [rcv_run] in Hrun;
+      [discriminate|].
+    unfold rstep in Hrun. destruct (step_tok s Hinv) as [Hs Hse].
+    destruct (step s) as [s'|r].
+    - eapply IH; [exact Hs|exact Hrun].
+    - destruct r as [t' rp' lay' tr'|pos st|pos st| |pos|cd]; try discriminate.
+      + inversion Hrun; subst. exact Hs.
+      + destruct rc; [|discriminate].
+        destruct (errst s) as [se|] eqn:E; [|discriminate]. specialize (Hse se eq_refl).
+        destruct (strategy se) as [|p ahead|p] eqn:Hstr; try discriminate.
+        eapply IH; [|exact Hrun]. destruct Hse as [Hse1 _].
+        unfold resume, tok_inv, hpos. destruct (l_stack se) as [|top below] eqn:Hstk.
+        * exfalso. exact (errst_nonempty skipws next_token s se E Hstk).
+        * cbn [l_stack l_ahead l_trace set_pos e_pos]. split; [exact Hse1|].
+          destruct ahead as [[y len]|]; [|exact I]. cbn. eapply Hsc; eauto.
+  Qed.
+
+  (* C11_leaves_are_tokens *)
+  Theorem parse_tokens rc fuel pos t rp lay tr errs :
+    strategy_scans ->
+    rcv_parse g tb skipws next_token stop_id consume_input rc strategy fuel pos = RvOk t rp lay tr errs ->
+    forall y s e l, In (y, s, e, l) tr -> exists st, next_token st s = TTok y (e - s).
+  Proof.
+    intros Hsc Hrun y s e l Hin. unfold rcv_parse in Hrun.
+    assert (Hi : tok_inv (lr_init pos)) by (split; exact I).
+    pose proof (run_tokens Hsc rc fuel _ _ _ _ _ _ _ Hi Hrun) as Hall.
+    rewrite All_In in Hall. exact (Hall _ Hin).
+  Qed.
+End Tokens.
+
+Lemma default_scans next_token in_len : strategy_scans next_token (default_strategy next_token in_len).
+Proof.
+  intros se p y len H. destruct (default_progress _ _ _ _ _ H) as (_ & _ & (y' & len' & E & C) & _).
+  inversion E; subst. eexists; eauto.
+Qed.
+
+
+(* ---- the recovery model used by C15 (Model/Reuse.v [rec_run], no action budget) is this
+   model with the default strategy ------------------------------------------------------- *)
+Definition rec_of_rcv (r : rcv_result) : rec_result :=
+  match r with
+  | RvOk t rp _ _ errs => RROk t rp errs
+  | RvSyntaxError pos st _ => RRSyntaxError pos st
+  | RvDisambiguation pos st errs => RRDisambiguation pos st errs
+  | RvLayoutError pos errs => RRLayoutError pos errs
+  | RvCrash c errs => RRCrash c errs
+  | RvOutOfFuel errs => RRAborted errs
+  end.
+
+Lemma rec_run_is_rcv_run g tb skipws next_token stop_id consume_input in_len recovery fuel :
+  forall s errs,
+    rec_run g tb skipws next_token stop_id consume_input in_len recovery fuel None s errs
+    = rec_of_rcv (rcv_run g tb skipws next_token stop_id consume_input recovery
+                          (default_strategy next_token in_len) fuel s errs).
+Proof.
+  induction fuel as [|f IH]; intros s errs; cbn [rec_run rcv_run]; [reflexivity|].
+  unfold step, rstep.
+  destruct (lr_step g tb skipws next_token stop_id consume_input false s) as [s'|r] eqn:Hstep; [apply IH|].
+  destruct r as [t rp lay tr|pos st|pos st| |pos|c]; try reflexivity.
+  destruct recovery; [|reflexivity].
+  unfold err_state, look.
+  destruct (l_stack s) as [|top0 below] eqn:Hstk.
+  - unfold lr_step in Hstep. rewrite Hstk in Hstep. discriminate.
+  - destruct (lookahead skipws next_token false s top0) as [[[top lay1] scan]|]; [|reflexivity].
+    unfold default_strategy, hpos, hstate. cbn [l_stack].
+    destruct (recover_scan next_token in_len (N.to_nat (in_len - e_pos top)) (e_state top) (e_pos top))
+      as [[p1 tk]|]; [|reflexivity].
+    destruct tk as [|y len|]; try reflexivity.
+    rewrite IH. reflexivity.
+Qed.
